@@ -39,6 +39,30 @@ class R(str):
     """a Coq term of type R (already parenthesised where needed)"""
 
 
+class RI(R):
+    """a term built from INTEGER literals only (Rust evaluates it in an integer type): `/` on two of these truncates in
+    Rust, so it is refused rather than translated as real division"""
+
+
+# assert!-s met inside translated bodies: key -> text.  An assertion is a panic condition of the real function that the
+# real-valued translation does not carry; the ones present today are listed in tools/assert_allow.json (each is either turned
+# into a theorem guard by its generator or named in DESIGN §3 as not modelled).  An assertion that is NOT in that list makes
+# the translation fail, so adding one to a translated function cannot go unnoticed.
+ASSERTS_SEEN = set()
+_ALLOW = None
+
+
+def assert_allowed(key):
+    global _ALLOW
+    if _ALLOW is None:
+        p = os.path.join(os.path.dirname(os.path.abspath(__file__)), "assert_allow.json")
+        try:
+            _ALLOW = set(json.load(open(p)))
+        except (OSError, ValueError):
+            _ALLOW = set()
+    return key in _ALLOW or os.environ.get("RS2COQ_RECORD_ASSERTS") == "1"
+
+
 def num_to_coq(txt):
     t = txt
     if t.endswith("."):
@@ -56,6 +80,167 @@ def num_to_coq(txt):
     raise ValueError(txt)
 
 
+def int_div_under(e):
+    """does the AST e (the operand of `as f64`) perform `/` or `%` before the cast (not inside a nested cast or call)?"""
+    k = e[0]
+    if k == "paren":
+        return int_div_under(e[1])
+    if k == "bin":
+        if e[1] in ("/", "%"):
+            return True
+        return int_div_under(e[2]) or int_div_under(e[3])
+    if k == "unary":
+        return int_div_under(e[2])
+    return False
+
+
+def note_assert(fname, e):
+    key = os.path.basename(fname) + ":" + hashlib.sha256(repr(e[2]).encode()).hexdigest()[:16]
+    ASSERTS_SEEN.add(key)
+    if not assert_allowed(key):
+        raise Untranslatable(fname, 0, f"assert! not present when the translation was written (key {key}): the model does not carry its panic condition: {str(e[2])[:160]}")
+
+
+def _contains_return(e):
+    if isinstance(e, tuple):
+        if e and e[0] == "return":
+            return True
+        if e and e[0] == "closure":
+            return False          # a return inside a closure returns from the closure
+        return any(_contains_return(x) for x in e)
+    if isinstance(e, list):
+        return any(_contains_return(x) for x in e)
+    return False
+
+
+def _check_value_block_assignments(it):
+    """a block used for its VALUE (let initialiser, operand, argument) is evaluated on a copy of the environment: an
+    assignment in it to a variable declared outside would be lost.  Refuse."""
+
+    def declared_in(stmts):
+        out = set()
+        for st in stmts:
+            if st[0] == "let":
+                out |= Evaluator.pattern_names(st[1])
+        return out
+
+    def assigned_in(node, acc):
+        if isinstance(node, tuple):
+            if node and node[0] == "assign" and node[2][0] == "path" and len(node[2][1]) == 1:
+                acc.add(node[2][1][0])
+            if node and node[0] == "closure":
+                return
+            for x in node:
+                assigned_in(x, acc)
+        elif isinstance(node, list):
+            for x in node:
+                assigned_in(x, acc)
+
+    def value_expr(e):
+        """e is evaluated for its value"""
+        if not isinstance(e, tuple) or not e:
+            return
+        k = e[0]
+        if k == "block":
+            acc = set()
+            assigned_in(e[1], acc)
+            lost = acc - declared_in(e[1])
+            if lost:
+                raise Untranslatable(it.file, it.span[0], f"{it.name}: assignment to {sorted(lost)} inside a block used as a value")
+            for st in e[1]:
+                walk_stmt(st)
+            if e[2] is not None:
+                value_expr(e[2])
+            return
+        if k == "closure":
+            return
+        for x in e[1:]:
+            if isinstance(x, tuple):
+                value_expr(x)
+            elif isinstance(x, list):
+                for y in x:
+                    if isinstance(y, tuple):
+                        value_expr(y) if (y and isinstance(y[0], str)) else [value_expr(z) for z in y if isinstance(z, tuple)]
+
+    def walk_stmt(st):
+        if st[0] == "let" and st[3] is not None:
+            value_expr(st[3])
+        elif st[0] == "assign":
+            value_expr(st[3])
+
+    for st in it.body[1]:
+        walk_stmt(st)
+    if it.body[2] is not None and it.body[2][0] not in ("block", "if", "iflet", "match"):
+        value_expr(it.body[2])
+
+
+def check_control_flow(it):
+    """Syntactic pre-pass (independent of evaluator subclasses): the symbolic evaluator treats `return` as 'the value of the
+    enclosing block', which is only right in tail position of the function body, or in the statement pattern
+    `if c { …; return X; }` directly inside a tail-position block.  Any other `return` is refused."""
+    if getattr(it, "_cf_ok", False) or it.body is None:
+        return
+
+    def tail_expr(e):
+        k = e[0]
+        if k == "return":
+            if e[1] is not None and _contains_return(e[1]):
+                raise Untranslatable(it.file, it.span[0], f"{it.name}: nested `return`")
+            return
+        if k == "paren":
+            return tail_expr(e[1])
+        if k == "block":
+            return tail_block(e)
+        if k == "if":
+            if _contains_return(e[1]):
+                raise Untranslatable(it.file, it.span[0], f"{it.name}: `return` inside a condition")
+            tail_block(e[2])
+            if e[3] is not None:
+                tail_expr(e[3]) if e[3][0] != "block" else tail_block(e[3])
+            return
+        if k == "iflet":
+            tail_block(e[3])
+            if e[4] is not None:
+                tail_expr(e[4]) if e[4][0] != "block" else tail_block(e[4])
+            return
+        if k == "match":
+            if _contains_return(e[1]):
+                raise Untranslatable(it.file, it.span[0], f"{it.name}: `return` inside a match scrutinee")
+            for _pat, guard, body in e[2]:
+                if guard is not None and _contains_return(guard):
+                    raise Untranslatable(it.file, it.span[0], f"{it.name}: `return` inside a match guard")
+                tail_expr(body)
+            return
+        if _contains_return(e):
+            raise Untranslatable(it.file, it.span[0], f"{it.name}: `return` in expression position (not a tail position): {str(e)[:120]}")
+
+    def tail_block(b):
+        for st in b[1]:
+            k = st[0]
+            if k == "expr" and st[1][0] in ("if", "iflet") and (st[1][3] if st[1][0] == "if" else st[1][4]) is None:
+                inner = st[1][2] if st[1][0] == "if" else st[1][3]
+                cond = st[1][1] if st[1][0] == "if" else st[1][2]
+                if _contains_return(cond):
+                    raise Untranslatable(it.file, it.span[0], f"{it.name}: `return` inside a condition")
+                if _contains_return(inner):
+                    tail_block(inner)       # the `if c { …; return X; }` pattern
+                continue
+            if k == "expr" and st[1][0] == "return":
+                continue                    # a trailing `return x;` statement
+            if k == "expr" and st[1][0] == "if" and st[1][3] is not None and _contains_return(st[1]):
+                # statement-level if/else with returns: each branch must itself be well-formed as a tail
+                tail_expr(st[1])
+                continue
+            if _contains_return(st):
+                raise Untranslatable(it.file, it.span[0], f"{it.name}: `return` outside tail position: {str(st)[:140]}")
+        if b[2] is not None:
+            tail_expr(b[2])
+
+    tail_block(it.body)
+    _check_value_block_assignments(it)
+    it._cf_ok = True
+
+
 class Evaluator:
     def __init__(self, fname, items, all_items=None, consts=None):
         self.fname = fname
@@ -67,8 +252,37 @@ class Evaluator:
     def fail(self, what, e=None):
         raise Untranslatable(self.fname, 0, what + (f" in {e!r}"[:200] if e is not None else ""))
 
+    @staticmethod
+    def pattern_names(pat):
+        k = pat[0]
+        if k == "pbind":
+            return {pat[1]}
+        if k in ("ptuple", "pslice", "por"):
+            out = set()
+            for p in pat[1]:
+                out |= Evaluator.pattern_names(p)
+            return out
+        if k == "pref":
+            return Evaluator.pattern_names(pat[1])
+        if k == "ppath" and len(pat[1]) == 1:
+            return {pat[1][0]}
+        return set()
+
     # ---- lookup
-    def lookup_const(self, name):
+    def lookup_const(self, name, module=None):
+        """module: the path segment before the name when it is a (lower-case) module name, e.g. `bbo_1::META`; a constant of
+        that name from a DIFFERENT known source file must not be picked up instead"""
+        own = os.path.splitext(os.path.basename(self.fname))[0]
+        qualified_elsewhere = module is not None and module not in ("self", "super", "crate", own) and any(
+            isinstance(k, tuple) and k[0] == "__file__" and os.path.splitext(os.path.basename(k[1]))[0] == module
+            for k in self.all_items)
+        if qualified_elsewhere:
+            for k, items in self.all_items.items():
+                if isinstance(k, tuple) and k[0] == "__file__" and os.path.splitext(os.path.basename(k[1]))[0] == module:
+                    for it in items:
+                        if it.kind == "const" and it.name == name and it.body is not None:
+                            return Evaluator(it.file, items, self.all_items, self.consts).ev(it.body, {})
+            self.fail(f"constant {module}::{name} not found in module {module}")
         for it in self.items:
             if it.kind == "const" and it.name == name and it.body is not None:
                 return self.ev(it.body, {})
@@ -103,6 +317,10 @@ class Evaluator:
 
     def arith(self, op, a, b, e=None):
         if self.is_r(a) and self.is_r(b):
+            if isinstance(a, RI) and isinstance(b, RI):
+                if op == "/":
+                    self.fail("integer division of integer literals (truncates in Rust)", e)
+                return RI(f"({a} {op} {b})")
             return self.paren(f"{a} {op} {b}")
         if isinstance(a, tuple) and a[0] == "V3" and isinstance(b, tuple) and b[0] == "V3" and op in "+-":
             return ("V3", [self.arith(op, x, y) for x, y in zip(a[1], b[1])])
@@ -115,6 +333,7 @@ class Evaluator:
     def call_fn(self, it, args, self_val=None):
         if it.error:
             raise it.error
+        check_control_flow(it)
         self.depth += 1
         if self.depth > 30:
             self.fail("recursion too deep")
@@ -183,7 +402,10 @@ class Evaluator:
                     then = self.block_ret(e[2], env)
                     rest = self.stmts(stmts[idx + 1:], tail, dict(env))
                     return self.ite(c, then, rest)
-                if e[0] == "macro" and e[1] in ("assert", "debug_assert", "assert_eq", "lazy_static::lazy_static", "lazy_static"):
+                if e[0] == "macro" and e[1] in ("lazy_static::lazy_static", "lazy_static"):
+                    continue
+                if e[0] == "macro" and e[1] in ("assert", "debug_assert", "assert_eq", "assert_ne", "debug_assert_eq"):
+                    note_assert(self.fname, e)
                     continue
                 if e[0] == "return":
                     return self.ev(e[1], env)
@@ -264,7 +486,9 @@ class Evaluator:
         if k == "paren":
             return self.ev(e[1], env)
         if k == "num":
-            return R(num_to_coq(e[1]))
+            t = num_to_coq(e[1])
+            is_int = re.fullmatch(r"[0-9]+", t) is not None and "." not in e[1] and (len(e) < 3 or e[2] not in ("f64", "f32"))
+            return RI(t) if is_int else R(t)
         if k == "path":
             segs = e[1]
             name = segs[-1]
@@ -272,7 +496,11 @@ class Evaluator:
                 return env[name]
             if name == "None" and len(segs) <= 2:
                 return ("STRUCT", "None", {})
-            v = self.lookup_const(name)
+            mod = segs[-2] if len(segs) > 1 and segs[-2][:1].islower() else None
+            try:
+                v = self.lookup_const(name, mod)
+            except TypeError:      # a subclass overriding lookup_const with the old one-argument signature
+                v = self.lookup_const(name)
             if v is not None:
                 return v
             if name[0].isupper():
@@ -296,9 +524,11 @@ class Evaluator:
                 return self.cond(e, env)
             self.fail(f"operator {op}", e)
         if k == "cast":
+            if e[2].strip() == "f64" and int_div_under(e[1]):
+                self.fail("`as f64` applied to an integer-typed expression containing `/` or `%` (integer division truncates)", e)
             v = self.ev(e[1], env)
             if e[2].strip() == "f64":
-                return v
+                return R(str(v)) if isinstance(v, RI) else v
             self.fail(f"cast to {e[2]}", e)
         if k == "tuple":
             return ("TUP", [self.ev(x, env) for x in e[1]])
@@ -485,12 +715,16 @@ class Out:
         self.outdir = outdir
         self.spans = {}
         self.files = {}
+        self.owner = {}      # generated file -> generator that wrote it
+        self.current = None
+        self.failed = {}     # generator -> message
 
     def span(self, key, it):
         self.spans[key] = {"file": os.path.relpath(it.file, REPO), "lines": list(it.span), "sha256": sha(it.text)}
 
     def write(self, name, text):
         self.files[name] = text
+        self.owner[name] = self.current
 
     def flush(self):
         os.makedirs(self.outdir, exist_ok=True)
@@ -502,6 +736,25 @@ class Out:
                     f.write(text)
         with open(os.path.join(self.outdir, "spans.json"), "w") as f:
             json.dump(self.spans, f, indent=1, sort_keys=True)
+        # which generator owns which file; a generator that failed this run must not leave its previous output behind
+        gp = os.path.join(self.outdir, "gens.json")
+        prev = {}
+        if os.path.exists(gp):
+            try:
+                prev = json.load(open(gp)).get("owner", {})
+            except ValueError:
+                prev = {}
+        owner = dict(prev)
+        owner.update(self.owner)
+        for fname, g in list(owner.items()):
+            if g in self.failed and fname not in self.files:
+                for ext in ("", "o", "ok", "os"):
+                    try:
+                        os.remove(os.path.join(self.outdir, fname + ext))
+                    except OSError:
+                        pass
+        with open(gp, "w") as f:
+            json.dump({"owner": owner, "failed": self.failed, "asserts_seen": sorted(set(ASSERTS_SEEN) | set(getattr(sys.modules.get("rs2coq"), "ASSERTS_SEEN", set())))}, f, indent=1, sort_keys=True)
 
 
 HEADER = """(* GENERATED by tools/rs2coq.py from {src} — do not edit; regenerated on every check run. *)
@@ -793,14 +1046,22 @@ def main():
     for name, g in gens.items():
         if only and name not in only:
             continue
+        out.current = name
+        before = set(out.files)
         try:
             g(REPO, out)
         except Untranslatable as e:
             print(f"{e}  [generator {name}]")
+            out.failed[name] = str(e)
             status = 3
         except Exception as e:  # a generator bug must not hide the other generators' output
             print(f"UNTRANSLATABLE {name}:0 generator crashed: {type(e).__name__}: {e}  [generator {name}]")
+            out.failed[name] = f"generator crashed: {type(e).__name__}: {e}"
             status = 3
+        if name in out.failed:
+            # drop whatever the failed generator had already queued: a partial model must not be built
+            for fname in set(out.files) - before:
+                del out.files[fname]
     out.flush()
     return status
 
